@@ -1,9 +1,18 @@
 #!/bin/bash
-# try_seed.sh <patch.diff> <Cxx|all> : apply a seeded change to /repo, run the check(s), revert.
+# try_seed.sh <patch.diff> <Cxx|all> : apply a change to a scratch worktree of /repo's HEAD (never to
+# /repo itself), run the check(s) of the current checker against it with a private verif root (so
+# /verif/evidence is not rewritten), remove the worktree.  Prints the reports only.
 set -u
-PATCH="$1"; ID="${2:-all}"
-cd /repo || exit 2
-if [ -n "$(git status --porcelain)" ]; then echo "repo not clean"; exit 2; fi
-git apply "$PATCH" || { echo "patch does not apply"; exit 2; }
-cd /verif && timeout 600 ./check.sh "$ID" quick 2>&1 | grep -v "^KNOWN-FINDING" | grep -E "^VIOLATION rule|^UNDECIDED|^SUMMARY.*violations=[1-9]|^SUMMARY.*undecided=[1-9]|ANALYSIS-ERROR" | cut -c1-420
-git -C /repo checkout -- . ; git -C /repo clean -fdq; git -C /repo status --porcelain | head -3
+PATCH="$(readlink -f "$1")"; ID="${2:-all}"
+export PATH=/opt/veriftools/go1.26.8/bin:$PATH GOTOOLCHAIN=local GOPROXY=off GOFLAGS=-mod=mod; unset GOWORK
+/verif/check.sh C22 quick >/dev/null 2>&1   # builds the checker if needed
+W=$(mktemp -d /tmp/try_seed_XXXXXX)
+cleanup() { git -C /repo worktree remove --force "$W/wt" 2>/dev/null; rm -rf "$W"; }
+trap cleanup EXIT
+git -C /repo worktree add -q --detach "$W/wt" HEAD || exit 2
+# uncommitted changes of /repo's working tree are part of "the current tree"
+(cd /repo && git diff) | (cd "$W/wt" && git apply --allow-empty 2>/dev/null)
+(cd "$W/wt" && git apply "$PATCH") || { echo "patch does not apply"; exit 2; }
+mkdir -p "$W/verif/evidence" "$W/verif/out"; cp /verif/known_findings.json /verif/properties.jsonl "$W/verif/"
+cp /verif/bin/nokvsa "$W/nokvsa"
+timeout 900 "$W/nokvsa" check "$ID" --tier quick --repo "$W/wt" --verif "$W/verif" 2>&1 | grep -v "^KNOWN-FINDING" | grep -E "^VIOLATION rule|^UNDECIDED|^SUMMARY.*violations=[1-9]|^SUMMARY.*undecided=[1-9]|ANALYSIS-ERROR" | cut -c1-420
